@@ -13,6 +13,7 @@ the Cartesian positions alone, and a non-default accessible volume.
 Every other reference run is re-tuned live through its documented attributes after a third of its steps (a resume
 from an earlier file replays the re-tuning at the same point), the dictionary loaded from a file is used a second
 time after the first rebuilt simulation has run, and a resumed run must perform exactly the requested steps.
+One workload holds composites nested with the constructor (a displacement composite inside a plain one).
 """
 from __future__ import annotations
 
@@ -62,6 +63,9 @@ def workloads(tier):
         "grand-box-runs-empty": {"driver": "GrandCanonical", "T": 3000.0, "mu": 0.0, "cycles": 4, "species": 1, "atoms": {"kind": "gas", "n": 1, "edge": 7.0, "seed": 8}, "calc": {"kind": "ideal"}, "table": [{"name": "x", "move": {"t": "E", "bias": 0.45}, "criteria": "accept"}, {"name": "d", "move": D()}]},
         "grand-molecular": {"driver": "GrandCanonical", "ctor_defaults": True, "T": 2500.0, "mu": -0.02, "cycles": 3, "species": 2, "accessible_volume_fraction": 1.7, "atoms": mols, "calc": {"kind": "soft"}, "table": [{"name": "x", "move": {"t": "E", "op": {"t": "TranslationRotation"}, "labelmod": "rev"}}, {"name": "d", "move": {"t": "D", "op": {"t": "TranslationRotation"}}}, {"name": "r", "move": {"t": "D", "op": {"t": "Rotation"}, "labelmod": "someneg"}}]},
         "grand-composite": {"driver": "GrandCanonical", "T": 2500.0, "mu": 0.05, "cycles": 2, "species": 3, "atoms": mols3, "calc": {"kind": "soft"}, "table": [{"name": "x", "move": {"t": "E", "op": {"t": "TranslationRotation"}, "id": "e0"}}, {"name": "xx", "move": {"t": "*", "part": {"t": "E", "op": {"t": "TranslationRotation"}, "bias": 0.7}, "n": 2, "attrs": {"bias_towards_insert": 0.8}}, "criteria": "random:0.5"}, {"name": "dx", "move": {"t": "+", "parts": [D(), {"t": "E", "op": {"t": "TranslationRotation"}}]}, "criteria": "alternate"}, {"name": "same", "move": {"t": "ref", "id": "e0"}}]},
+        # composites nested on purpose with the constructor: the inner displacement composite keeps its own logic (no
+        # particle twice) inside the plain one, and so it must after a restart
+        "canonical-nested-composites": {"driver": "Canonical", "T": 900.0, "cycles": 2, "atoms": gas, "calc": {"kind": "soft"}, "table": [{"name": "nest", "move": {"t": "nest", "parts": [{"t": "*", "part": D("Box"), "n": 2}, D("Sphere")]}, "criteria": "canonical"}, {"name": "nn", "move": {"t": "nest", "parts": [{"t": "nest", "parts": [{"t": "+", "parts": [D(), D("Box")]}, D()]}, D("Sphere")]}, "criteria": "random:0.5"}, {"name": "d", "move": D()}]},
         "montecarlo-bare": {"driver": "MonteCarlo", "cycles": 2, "atoms": gas, "calc": {"kind": "soft"}, "table": [{"name": "p", "move": {"t": "P"}, "criteria": "random:0.5"}]},
         "forcebias": {"driver": "ForceBias", "T": 300.0, "delta": 0.15, "atoms": {"kind": "mixed", "n": 5, "edge": 8.0, "pbc": False, "seed": 6}, "calc": {"kind": "harmonic", "k": 1.0}},
         "adaptive-forcebias": {"driver": "AdaptiveForceBias", "T": 300.0, "delta": 0.2, "atoms": {"kind": "mixed", "n": 5, "edge": 8.0, "pbc": False, "seed": 7}, "calc": {"kind": "committee"}},
